@@ -6,6 +6,6 @@ git -C /repo worktree remove --force $wt >/dev/null 2>&1; rm -rf $wt
 git -C /repo worktree add --detach $wt HEAD >/dev/null 2>&1 || exit 2
 (cd $wt && git apply /verif/seeded/$sid/patch.diff) || { git -C /repo worktree remove --force $wt; exit 2; }
 for p in "$@"; do
-  VERIF_REPO=$wt VERIF_EVIDENCE_DIR=/tmp/pyasn1-verif-seed-evidence /verif/check $p ${TIER:-quick} 2>&1 | grep -v "^KNOWN-FINDING\|WARNING" | cut -c1-260 | tail -4
+  VERIF_REPO=$wt VERIF_EVIDENCE_DIR=/tmp/pyasn1-verif-seed-evidence /verif/check $p ${TIER:-quick} 2>&1 | grep -v "^KNOWN-FINDING\|WARNING" | cut -c1-260 | awk '/^VIOLATION/{split($0,a,"symptom="); c[a[2]]++; next} {print} END{for(k in c) print "   ",c[k],"x",k}'
 done
 git -C /repo worktree remove --force $wt; rm -rf $wt
